@@ -77,7 +77,7 @@ def ensure_driver():
             raise BuildError("mirfacts driver failed to build:\n" + r.stderr[-3000:])
 
 
-def specimen_dir(repo):
+def specimen_dir(repo, tag=""):
     """The specimen path-depends on /repo. For a scratch repo, use a rewritten copy."""
     src = os.path.join(VERIF, "specimen")
     if os.path.abspath(repo) == "/repo":
@@ -87,7 +87,7 @@ def specimen_dir(repo):
         except OSError:
             pass
         return src
-    dst = os.path.join(os.path.dirname(os.path.abspath(repo)), "specimen-" + os.path.basename(os.path.abspath(repo)))
+    dst = os.path.join(os.path.dirname(os.path.abspath(repo)), "specimen-" + os.path.basename(os.path.abspath(repo)) + ("-" + tag if tag else ""))
     if os.path.exists(dst):
         shutil.rmtree(dst)
     shutil.copytree(src, dst, ignore=shutil.ignore_patterns("target", "Cargo.lock*"))
@@ -133,7 +133,7 @@ def ensure_facts(cfg, repo="/repo", verbose=False):
                     except OSError:
                         pass
         shutil.rmtree(os.path.join(tgt, "debug", "incremental"), ignore_errors=True)
-        spec = specimen_dir(repo)
+        spec = specimen_dir(repo, cfg.name)
         lock_src = os.path.join(repo, "Cargo.lock")
         if os.path.exists(lock_src):
             shutil.copyfile(lock_src, os.path.join(spec, "Cargo.lock"))
@@ -162,6 +162,16 @@ def ensure_facts(cfg, repo="/repo", verbose=False):
         if verbose:
             sys.stderr.write("[extract %s] %.1fs rc=%d\n" % (cfg.name, time.time() - t, r.returncode))
         if r.returncode != 0:
+            have = all(os.path.exists(os.path.join(out, n + ".json")) for n in ("gecs", "gecs_macros"))
+            if have and not os.path.exists(os.path.join(out, "specimen.json")):
+                # gecs and its macro crate build, the specimen client crate does not: keep the facts that exist
+                # and let the checks attribute the failure (a valid client program no longer compiles)
+                with open(os.path.join(out, "specimen.error"), "w") as f:
+                    f.write(r.stderr[-6000:])
+                open(done, "w").write(cfg.describe() + " (specimen failed to build)\n")
+                if os.path.abspath(repo) != "/repo":
+                    shutil.rmtree(spec, ignore_errors=True)
+                return out
             shutil.rmtree(out, ignore_errors=True)
             raise BuildError("cargo check under the mirfacts driver failed for %s:\n%s" % (cfg.describe(), r.stderr[-4000:]))
         for name in ("gecs", "gecs_macros", "specimen"):
@@ -169,6 +179,8 @@ def ensure_facts(cfg, repo="/repo", verbose=False):
                 shutil.rmtree(out, ignore_errors=True)
                 raise BuildError("fact file %s.json was not written by this run (driver skipped?)" % name)
         open(done, "w").write(cfg.describe() + "\n")
+        if os.path.abspath(repo) != "/repo":
+            shutil.rmtree(spec, ignore_errors=True)
         return out
     finally:
         fcntl.flock(lockf, fcntl.LOCK_UN)
